@@ -96,7 +96,8 @@ def unit_sets(tier):
         for f, flags in compile_db().items():
             if '/tests/' in f:
                 name = 't_' + os.path.relpath(f, REPO + '/tests').replace('/', '_')[:-4]
-                units[name] = (f, flags + ['-std=gnu++17', '-Wno-everything'])
+                # the five test units outside the pinned suite only lack <iterator>/<tuple>: force the includes so that they are analysed too
+                units[name] = (f, flags + ['-std=gnu++17', '-Wno-everything', '-include', 'iterator', '-include', 'tuple', '-include', 'array', '-include', 'cstdint', '-include', 'cstring'])
     return units
 
 
